@@ -9,3 +9,5 @@ for p in "$@"; do
 done
 git -C /repo checkout -- . 
 git -C /repo status --short | head -3
+# rebuild the harness on the restored tree so that a later manual probe does not use a mutant binary
+(cd /verif && python3 -c "import sys; sys.path.insert(0,'tools'); import common; common.build_harness()") >/dev/null 2>&1
